@@ -48,6 +48,8 @@ class DictLM(LightNodeMixin):
 class PlainLink(SymlinkNodeMixin):
     """User symlink class built directly on SymlinkNodeMixin."""
 
+    icon = "arrow"  # a class-level default of the link class: an assignment through the link still goes to the target
+
     def __init__(self, target, parent=None, children=None):
         self.target = target
         self.parent = parent
@@ -56,6 +58,33 @@ class PlainLink(SymlinkNodeMixin):
 
     def __repr__(self):
         return "PlainLink(...)"
+
+
+class Estimator(object):
+    """A user base class with its own meaning for names that NodeMixin also defines (decision-tree style flags).
+
+    Listed BEFORE NodeMixin in the bases it shadows those read-only properties for this class; parent, children and
+    everything the tree operations are documented to use stay NodeMixin's."""
+
+    is_leaf = True
+    is_root = False
+    depth = 1
+    height = 0
+    size = 0
+    leaves = ()
+    descendants = ()
+    siblings = ()
+
+
+class ShadowMRO(Estimator, NodeMixin):
+    def __init__(self, name=None, parent=None, children=None):
+        self.name = name
+        self.parent = parent
+        if children:
+            self.children = children
+
+    def __repr__(self):
+        return "ShadowMRO(%r)" % (self.name,)
 
 
 class Record(object):
@@ -84,6 +113,8 @@ class SlotDictNM(Record, NodeMixin):
 class PropLink(SymlinkNodeMixin):
     """Link whose `target` is a read-only property (the docs only require that the class has a `target` attribute)."""
 
+    icon = "arrow"
+
     def __init__(self, target, parent=None, children=None):
         object.__setattr__(self, "_ref", target)  # a normal assignment would be forwarded to the target
         self.parent = parent
@@ -102,6 +133,7 @@ class SlotLink(SymlinkNodeMixin):
     """Link that keeps `target` in a slot instead of the instance dictionary."""
 
     __slots__ = ("target",)
+    icon = "arrow"
 
     def __init__(self, target, parent=None, children=None):
         self.target = target
@@ -121,7 +153,7 @@ def class_link(target):
         if children:
             self.children = children
 
-    cls = type("ClassLink", (SymlinkNodeMixin,), {"target": target, "__init__": __init__, "__repr__": lambda self: "ClassLink(...)"})
+    cls = type("ClassLink", (SymlinkNodeMixin,), {"target": target, "icon": "arrow", "__init__": __init__, "__repr__": lambda self: "ClassLink(...)"})
     return cls()
 
 
@@ -225,6 +257,13 @@ def factory(clsname):
             return SymlinkNode(target)
 
         return make_link
+    if clsname == "ShadowData":
+        # ordinary nodes whose DATA happens to use the names of the read-only navigation attributes (a file listing
+        # with size/path/depth columns): keyword attributes go into the instance dictionary, the properties still win
+        data = {"size": 2048, "height": 80, "depth": 7, "leaves": "oak", "descendants": (), "path": "/tmp/x", "ancestors": None, "root": "sqrt", "is_leaf": "maybe", "is_root": 0, "siblings": 3, "anchestors": 1}
+        return lambda label: (Node(str(label), **data) if int(label) % 2 else AnyNode(name=str(label), **data))
+    if clsname == "ShadowMRO":
+        return lambda label: ShadowMRO(str(label))
     if clsname == "SelfLinks":
         # every second node is a link to an earlier node made by the same factory (usually a node of the same tree)
         made = []
@@ -265,4 +304,4 @@ def factory(clsname):
 # classes with their own __eq__/__hash__/__bool__/__len__ are ordinary users of the mixins: every property that
 # quantifies over "all trees" holds for them too (the harness itself only ever uses identity on nodes)
 SPECIAL_CLASSES = ["EqNode", "FalsyNode", "LenNode", "EqSlotLM", "ListNode", "TupleNode", "TupleNameNode"]
-TREE_CLASSES = ["Node", "AnyNode", "PlainNM", "SlotLM", "DictLM", "SymlinkNode", "MixNM", "MixLM"] + SPECIAL_CLASSES
+TREE_CLASSES = ["Node", "AnyNode", "PlainNM", "SlotLM", "DictLM", "SymlinkNode", "MixNM", "MixLM", "ShadowData"] + SPECIAL_CLASSES
